@@ -115,7 +115,8 @@ fn parse_prefix(name: &str, fragment: &yaml::Yaml) -> Result<Option<Prefix>, Err
                     }
                 }
             }
-            let prefix = prefix.unwrap();
+            let prefix = prefix
+                .ok_or_else(|| Error::InvalidConfig(format!("{} is missing its prefix", name)))?;
             Ok(Some(Prefix {
                 addr: prefix.addr,
                 prefixlen: prefix.prefixlen,
